@@ -44,3 +44,19 @@ Theorem C12_thesaurus_codec_roundtrip :
   Some (List.map (fun x => (fst (fst x), List.fold_right Spec.pins nil (List.map (ThesProof.resolve tbl) (snd x)))) (List.combine kvs posts)).
 Proof. exact ThesProof.thesaurus_roundtrip. Qed.
 Print Assumptions C12_thesaurus_codec_roundtrip.
+
+Require ZV.ThesOrder.
+
+(* the canonical (synonym, document) list of a term - what the specification holds and what the frozen
+   reader's syn_pairs computes from the 64-bit codes - depends only on the SET of pairs: not on the
+   order in which a builder or a merge hands out internal synonym ids, not on the order of the codes
+   in the bitmap, not on repetitions *)
+Theorem C12_pairs_depend_only_on_their_set : forall l1 l2,
+  (forall t, List.In t l1 <-> List.In t l2) -> ThesOrder.canon l1 = ThesOrder.canon l2.
+Proof. exact ThesOrder.canon_order_free. Qed.
+Print Assumptions C12_pairs_depend_only_on_their_set.
+
+Theorem C12_insertion_order_free : forall l,
+  List.fold_left (fun a x => Spec.pins x a) l nil = ThesOrder.canon l.
+Proof. exact ThesOrder.insertion_order_free. Qed.
+Print Assumptions C12_insertion_order_free.
